@@ -1,5 +1,6 @@
 // ops on explicit tree automata (pure operations: C01-C06, C14, C15)
 #include "common.hh"
+#include <vata/reduce_param.hh>
 
 #include <vata/incl_param.hh>
 #include <random>
@@ -292,7 +293,14 @@ VDRIVE_OP(reduce)
 	TA a;
 	BuildMaybeSplit(a, c, alpha, [](TA& x) { x.Reduce(); });
 	SetStage("Reduce");
-	TA r = a.Reduce();
+	TA r;
+	if (c.value("viaparam", false))
+	{	// the overload taking the relation explicitly
+		VATA::ReduceParam rp;
+		rp.SetRelation(VATA::ReduceParam::e_reduce_relation::TA_DOWNWARD);
+		r = a.Reduce(rp);
+	}
+	else { r = a.Reduce(); }
 	SetStage("readback");
 	json res;
 	res["R"] = ReadTA(r, alpha);
@@ -906,6 +914,53 @@ VDRIVE_OP(trimtrace)
 	json done;
 	done["e"] = "Result";
 	done["R"] = ReadTA(r, alpha);
+	evs.push_back(done);
+	json res;
+	res["events"] = evs;
+	return res;
+}
+
+// ---------------------------------------------------------------- step-level binding of the Layer-2 model Product
+// {"op":"isecttrace","A","B","bu":bool}: runs Intersection / IntersectionBU with the step hook installed; returns Start (with
+// the operands), a synthetic Begin, the Pop events (the state pair taken from the work list) and Result (automaton + product map).
+VDRIVE_OP(isecttrace)
+{
+	Alpha alpha;
+	if (c.contains("syms")) { alpha.RegisterAll(c["syms"]); }
+	TA a = MakeTA(c.at("A"), alpha);
+	TA b = MakeTA(c.at("B"), alpha);
+	bool bu = c.value("bu", false);
+	std::vector<std::string> events;
+	g_stepSink = &events;
+	VATA::Util::Verif::Sink() = stepSink;
+	AutBase::ProductTranslMap pm;
+	TA r;
+	try { r = bu ? TA::IntersectionBU(a, b, &pm) : TA::Intersection(a, b, &pm); }
+	catch (...) { VATA::Util::Verif::Sink() = nullptr; g_stepSink = nullptr; throw; }
+	VATA::Util::Verif::Sink() = nullptr;
+	g_stepSink = nullptr;
+	json evs = json::array();
+	for (const std::string& s : events)
+	{
+		json e = json::parse(s);
+		if (e.at("e") == "Start")
+		{
+			e["A"] = ReadTA(a, alpha);
+			e["B"] = ReadTA(b, alpha);
+			evs.push_back(e);
+			json begin;
+			begin["e"] = "Begin";
+			evs.push_back(begin);
+			continue;
+		}
+		evs.push_back(e);
+	}
+	json done;
+	done["e"] = "Result";
+	done["R"] = ReadTA(r, alpha);
+	json m = json::array();
+	for (auto& kv : pm) { m.push_back(json::array({kv.first.first, kv.first.second, kv.second})); }
+	done["map"] = m;
 	evs.push_back(done);
 	json res;
 	res["events"] = evs;
